@@ -968,7 +968,7 @@ class Pass2(CompilePass):
                  not node.right.type.is_builtin:
                 raise CompileError(EC.TYPE_MISMATCH, node=node)
 
-        if node.type == Type.UNKNOWN:
+        if node.type.is_unknown:
             raise CompileError(EC.TYPE_MISMATCH, node=node)
 
     def process_unary_op_pre(self, node):
